@@ -6,6 +6,8 @@
    `sched` (ANY list of parent / child / kill choices) for configuration `c` (ANY number of
    members with ANY behaviours, exit_on_exception flag, signal-latency flag, query script). *)
 From Coq Require Import Bool List.
+From PySMT.models Require Import AssertStack StackPrims TrackSolver.
+From PySMT.proofs Require Import TrackSolver_proofs.
 From PySMT.models Require Import Portfolio.
 From PySMT.proofs Require Import Portfolio_proofs.
 Import ListNotations.
@@ -80,6 +82,20 @@ Theorem C19_no_stuck_state_latency_refuted :
     outcome_of c (run c sched) = OBlockedQuery true 0 [].
 Proof. exact no_stuck_state_latency_refuted. Qed.
 
+(* repeated solve / push-pop cycles: Portfolio keeps its assertions with the
+   IncrementalTrackingSolver bookkeeping (models/TrackSolver.v, proved for C16; Portfolio's
+   _add_assertion/_push/_pop/_solve carry @clear_pending_pop like the modelled subclass).
+   After every prefix of a legal command history - one-shot queries (is_sat / is_valid /
+   is_unsat, which leave a pending pop) and pop(n) anywhere in it - what `assertions` returns,
+   i.e. what the next _solve round conjoins and hands to every member, is exactly the live
+   assertions of the reference frame stack.  Each round is then covered by the theorems above. *)
+Theorem C19_rounds_solve_live_assertions : forall (F : Type) (fnot : F -> F) (cs1 cs2 : list (scmd F)),
+  legal (map to_spec (cs1 ++ cs2)) ->
+  exists s c c', s_run s_init (map to_spec cs1) = Some s /\
+                 t_run fnot t_init cs1 = Ok c /\ assertions c = Ok (c', live_assertions s).
+Proof. exact solver_tracks_live_every_step. Qed.
+
+Print Assumptions C19_rounds_solve_live_assertions.
 Print Assumptions C19_verdict_from_member.
 Print Assumptions C19_verdict_agreed.
 Print Assumptions C19_failures_ignored.
